@@ -149,6 +149,8 @@ fn ladder_cfg(rng: &mut Rng, i: u64, thorough: bool) -> BuildCfg {
     let mut cfg = gen_cfg(rng, &GenOpts { max_files: 0, ..Default::default() });
     cfg.files.clear();
     let nfiles = match rng.below(6) {
+        // every ninth package has many entries (per-entry bookkeeping adds up)
+        _ if i % 9 == 4 => 40 + rng.usize(if thorough { 400 } else { 120 }),
         0 => 0,
         1 => 1,
         _ => 1 + rng.usize(7),
